@@ -100,7 +100,8 @@ theorem simpledmrs_list_roundtrip (o : Opts) (ds : List DMRS) (h : ∀ d ∈ ds,
     decodeList (ds.flatMap (encDmrsToks o)) = .ok (ds.map (viewS o)) :=
   decodeList_encDmrsToks o ds h
 
-/-- "Suppressing properties … or alignments removes exactly that information" (SimpleDMRS keeps the
+/-- (Definitional: this unfolds the view `viewS`; its content is carried by the round-trip theorems, which land
+on `viewS`.)  "Suppressing properties … or alignments removes exactly that information" (SimpleDMRS keeps the
 node type outside the property list): with `properties = false` the decoded nodes have no properties and
 keep id, predicate, type (up to F11), constant and alignment; with `lnk = false` no alignment and no
 surface string. -/
@@ -197,6 +198,12 @@ theorem simpledmrs_indent_same_tokens (o : Opts) (k : Nat) (d : DMRS) (hl : lexO
     lexText (encodeTextIndent o k d) = lexText (encodeText o d) := by
   rw [lexText_encodeTextIndent o k d hl, lexText_encodeText o d hl]
 
+/-- … and in the indented layout -/
+theorem simpledmrs_text_stable_indent (o : Opts) (k : Nat) (d : DMRS) :
+    encodeTextIndent o k (viewS o d) = encodeTextIndent o k d := by
+  unfold encodeTextIndent
+  rw [tokLines_view]
+
 example : lexOK dTypeU = true := by decide
 
 /-! ## DMRS-JSON and DMRX -/
@@ -223,7 +230,9 @@ theorem viewNodeJ_id (n : Node) (h : n.lnk = .unspec ∨ ∃ a b, n.lnk = .chars
       by_cases ha : a = -1 <;> by_cases hb : b = -1 <;> simp_all
     simp [viewNodeJ, viewLnkJ, this, Lnk.cfrom, Lnk.cto]
 
-/-- "Suppressing properties (together with the node type in the formats that store the type among the
+/-- (Definitional: this unfolds the views `viewJ`/`viewX`; the content is carried by `dmrsjson_roundtrip` and
+`dmrx_roundtrip`, which land on them.)
+"Suppressing properties (together with the node type in the formats that store the type among the
 properties) … removes exactly that information": in DMRX and DMRS-JSON `properties = false` removes
 properties AND type, nothing else; `lnk = false` removes alignment and surface/base strings, nothing else. -/
 theorem sortinfo_formats_suppression (o : Opts) (d : DMRS) :
@@ -246,7 +255,8 @@ theorem sortinfo_formats_suppression (o : Opts) (d : DMRS) :
 /-- "decoding its … DMRX … encoding yields the same node identifiers, predicates, node types, properties,
 constants, surface alignments, links … and top/index": tree round trip (`xml.etree` is a parameter).
 `viewX` is the identity on these fields up to the representation of a missing alignment as `<-1:-1>` and the
-suppressed information (`sortinfo_formats_suppression`). -/
+suppressed information (`sortinfo_formats_suppression`).  No predicate round-trip hypothesis beyond normal form:
+`ExpressibleX` asks `normalizePred n.pred = n.pred` and `n.pred ≠ []` (`predRT_of_normal` does the rest). -/
 theorem dmrx_roundtrip (o : Opts) (d : DMRS) (hwf : d.WF) (hx : ExpressibleX d) :
     ∃ x, toXml o d = .ok x ∧ ofXml x = .ok (viewX o d) :=
   ofXml_toXml o d hwf hx (fun n hn => predRT_of_normal n.pred (hx.1 n hn).predNorm (hx.1 n hn).predNe)
@@ -295,6 +305,34 @@ a further permutation of the numbering (that is what the direct oracle checks). 
 theorem penman_roundtrip (o : Opts) (d : DMRS) (hx : ExpressibleP d) :
     ∃ ts, toTriples o d = .ok ts ∧ fromTriples ts = .ok (viewP o d) :=
   fromTriples_toTriples o d hx
+
+/-- "connected from the top" is graph reachability: the model's `mainComponent` (a fuelled BFS as in
+`util._bfs`) contains exactly the identifiers reachable from the top along links taken in either direction
+(`Verif.Sem.bfs_correct`) … -/
+theorem penman_component_is_reachability (d : DMRS) (t : Int) (ht : d.top = some t) (hne : d.nodes ≠ []) (x : Int) :
+    x ∈ mainComponent d ↔ Verif.Sem.Reach (Verif.Sem.adjOf (Verif.Sem.symm (linkEdges d))) t x := by
+  unfold mainComponent
+  cases hn : d.nodes with
+  | nil => exact absurd hn hne
+  | cons n ns =>
+    simp only [ht]
+    exact Verif.Sem.bfs_correct _ t x
+
+/-- … where two nodes are adjacent iff some link joins them, in either direction. -/
+theorem penman_adjacent_iff (d : DMRS) (x y : Int) :
+    y ∈ Verif.Sem.adjOf (Verif.Sem.symm (linkEdges d)) x ↔
+      ∃ l ∈ d.links, (l.start = x ∧ l.stop = y) ∨ (l.start = y ∧ l.stop = x) := by
+  rw [Verif.Sem.mem_adjOf]
+  unfold Verif.Sem.symm linkEdges
+  simp only [List.mem_append, List.mem_map, Prod.mk.injEq]
+  constructor
+  · rintro (⟨l, hl, h1, h2⟩ | ⟨p, ⟨l, hl, rfl⟩, h1, h2⟩)
+    · exact ⟨l, hl, Or.inl ⟨h1, h2⟩⟩
+    · exact ⟨l, hl, Or.inr ⟨h2, h1⟩⟩
+  · rintro ⟨l, hl, (⟨h1, h2⟩ | ⟨h1, h2⟩)⟩
+    · exact Or.inl ⟨l, hl, h1, h2⟩
+    · exact Or.inr ⟨(l.start, l.stop), ⟨l, hl, rfl⟩, h2, h1⟩
+
 
 /-- the hypotheses are satisfiable: "the dog" with a quantifier link -/
 def dP : DMRS :=
@@ -371,6 +409,45 @@ theorem normalizeTop_idempotent (top : Option Int) (ls : List Link) :
 theorem constructor_wf (top index : Option Int) (ns : List Node) (ls : List Link) (lnk : Lnk) (s i : Option Str) :
     (mkDMRS top index ns ls lnk s i).WF :=
   mkDMRS_wf top index ns ls lnk s i
+
+/-! ## witnesses: the hypotheses of the round-trip theorems are satisfiable together -/
+
+/-- a witness with the corners in it: two nodes, a quantifier link and a role-less EQ link, a constant with a
+quote and a backslash, properties, character spans, graph-level lnk/surface/identifier -/
+def dW : DMRS :=
+  { top := some 10001, index := some 10001,
+    nodes := [{ id := 10000, pred := S "_the_q", lnk := .charspan 0 3 },
+              { id := 10001, pred := S "named", type := some (S "x"), props := [(S "NUM", S "sg"), (S "PERS", S "3")],
+                carg := some (S "a\"b\\"), lnk := .charspan 4 7 }],
+    links := [⟨10000, 10001, some (S "RSTR"), some (S "H")⟩, ⟨10000, 10001, none, some (S "EQ")⟩],
+    lnk := .charspan 0 7, surface := some (S "the \"a\""), identifier := some (S "w-1") }
+
+example : dW.WF := by
+  intro l hl
+  simp [dW] at hl
+  rcases hl with h | h <;> subst h <;> decide
+example : lexOK dW = true := by decide
+example : ExpressibleJ dW := by
+  intro n hn
+  simp [dW] at hn
+  rcases hn with h | h <;> subst h <;> exact ⟨by unfold KeysNodup; decide, by decide⟩
+example : ExpressibleSD dW := by
+  refine ⟨?_, ?_⟩
+  · intro n hn
+    simp [dW] at hn
+    rcases hn with h | h <;> subst h <;> exact ⟨by unfold KeysNodup; decide, by decide, by decide, by decide⟩
+  · intro l hl
+    simp [dW] at hl
+    rcases hl with h | h <;> subst h <;> exact ⟨by decide, by decide⟩
+example : ExpressibleX dW := by
+  refine ⟨?_, ?_⟩
+  · intro n hn
+    simp [dW] at hn
+    rcases hn with h | h <;> subst h <;>
+      exact ⟨by decide, by decide, by decide, by decide, by decide, by decide, by decide⟩
+  · intro l hl
+    simp [dW] at hl
+    rcases hl with h | h <;> subst h <;> exact ⟨by decide, by decide⟩
 
 end Verif.C02
 
